@@ -56,6 +56,16 @@ def reference(lut, meta, datax, deform, channel_width, flow_rate, px_um,
     tri = Delaunay(pts)
     q = np.stack([x / nx, deform / ny], axis=1)
     simp = tri.find_simplex(q)
+    # Next to degenerate (zero-area) simplices of the large tables the
+    # walking point location can give up for points that lie exactly on an
+    # edge; such probes are located exhaustively and reported as ambiguous
+    # (they are "on a cell boundary" for any floating-point implementation).
+    miss = np.flatnonzero(simp < 0)
+    ambiguous = np.zeros(len(q), bool)
+    if len(miss):
+        brute = tri.find_simplex(q[miss], bruteforce=True, tol=1e-10)
+        ambiguous[miss[brute >= 0]] = True
+        simp[miss] = brute
     out = np.full(len(q), np.nan)
     ok = simp >= 0
     T = tri.transform[simp[ok]]
@@ -67,7 +77,7 @@ def reference(lut, meta, datax, deform, channel_width, flow_rate, px_um,
         np.asarray(visc, float) / meta["fluid_viscosity"]) * (
         wl / channel_width) ** 3
     # distance to the hull (normalised units) to skip boundary points
-    return out * scale, tri, q
+    return out * scale, tri, q, ambiguous
 
 
 def hull_distance(tri, q):
@@ -196,9 +206,9 @@ def _lut_case(args):
                                  f"{type(e).__name__}: {e}",
                                  dict(tags, exc=type(e).__name__)))
             continue
-        exp, tri, qn = reference(lut, meta, xd, dd, w, q, px, eta)
+        exp, tri, qn, amb = reference(lut, meta, xd, dd, w, q, px, eta)
         dist = hull_distance(tri, qn)
-        clear = dist > 1e-5          # not within rounding of the hull
+        clear = (dist > 1e-5) & ~amb   # not within rounding of the hull
         cnt += int(clear.sum())
         nan_mis = clear & (np.isnan(got) != np.isnan(exp))
         both = clear & ~np.isnan(got) & ~np.isnan(exp)
@@ -399,12 +409,10 @@ def run(ctx):
     for lid in LUTS:
         big = lid.startswith("builtin")
         cfgs = list(range(len(CONFIGS)))
-        if ctx.quick and big:
-            cfgs = [0, 3, 5, 6, 9, 12, 15]
         per = 2 if big else 16
         for k in range(0, len(cfgs), per):
             items.append((lid, cfgs[k:k + per],
-                          4000 if (big and ctx.quick) else None, scratch))
+                          None, scratch))
     res = par.pmap(_lut_case, items)
     res += par.pmap(_law_case, [(lid, scratch) for lid in LUTS])
     res += par.pmap(_replace_case, [(scratch,)])
@@ -416,8 +424,7 @@ def run(ctx):
     cov = {"evaluations": cnt, "distinct_nontrivial": cnt,
            "luts": LUTS, "configurations": len(CONFIGS),
            "rule": "probe points = every LUT node, every Delaunay simplex "
-                   "(centroid + 3 edge mid-points; quick: every k-th "
-                   "simplex of the large built-in tables), every hull edge "
+                   "(centroid + 3 edge mid-points), every hull edge "
                    "(a point 1e-4 inside / outside) and 4 far points, "
                    "mapped into the data space of each of 16 set-up "
                    "configurations (channel width x flow rate x pixel size "
